@@ -549,7 +549,12 @@ def run_case(case):
                         with open(fp, "r+b") as fh:
                             fh.write(nd)
                     elif e == "chmod":
-                        os.chmod(fp, os.lstat(fp).st_mode ^ 0o111)
+                        if rng.random() < 0.5:
+                            os.chmod(fp, os.lstat(fp).st_mode ^ 0o111)
+                        else:
+                            # modes whose execute bits are not all-or-nothing, and umask variants: git tracks the owner's x bit only
+                            os.chmod(fp, rng.choice([0o700, 0o744, 0o750, 0o654, 0o645, 0o600, 0o664, 0o775, 0o755, 0o644, 0o711, 0o610]))
+                            feats.add("chmod-odd-mode")
                     elif e == "delete":
                         os.unlink(fp)
                     elif e == "file-to-symlink":
@@ -589,6 +594,11 @@ def run_case(case):
                         open(os.path.join(dd, rng.choice(NAMES)), "wb").write(b"u\n")
                         if rng.random() < 0.5:
                             open(os.path.join(os.path.dirname(dd), b"second"), "wb").write(b"u2\n")
+                        if rng.random() < 0.6:
+                            # empty sub-directories next to the one with content, wherever the file system lists them
+                            for en in rng.sample([b"0-empty", b"aaa", b"zzz-empty", b"E", b"~last", b"deeper2"], rng.randint(1, 4)):
+                                os.makedirs(os.path.join(os.path.dirname(dd), en), exist_ok=True)
+                            feats.add("untracked-dir-with-empty-subdirs")
                 elif e == "add-untracked-prefix-dir":
                     # an untracked directory whose name is a byte prefix of a tracked sibling (src/ next to src.txt, di/ next to dir/)
                     tops = sorted(set(p.split(b"/")[0] for p in I if len(p.split(b"/")[0]) > 1))
